@@ -203,7 +203,7 @@ func (act *activation) call(a *alt, ins ssa.Instruction, c *ssa.CallCommon, defe
 	if !inline {
 		pure := fn != nil && isPureExternal(key) || c.IsInvoke() && isPureExternal(strings.TrimPrefix(key, "iface:"))
 		// in-scope helpers that are kept opaque but are functions of their arguments
-		if key == "core/02-client/types.ParseChainID" || key == "core/02-client/types.GetSelfHeight" {
+		if key == "core/02-client/types.ParseChainID" || key == "core/02-client/types.GetSelfHeight" || (e.PureFn != nil && fn != nil && e.PureFn(key)) {
 			pure = true
 		}
 		// a pointer to a tracked local handed to an opaque callee is shown as a
